@@ -146,7 +146,7 @@ def run_case(case):
             return obl
         return core.explore(path, max_paths=8)
 
-    def one(fields, limit, serial, canary=False, again=False, np_limit=False):
+    def one(fields, limit, serial, canary=False, again=False, np_limit=False, positional=False):
         def path(ctx):
             fs = SymFS()
             ref.write_symfs(fs, '/work/plt')
@@ -156,9 +156,15 @@ def run_case(case):
                 what = 'm = Mandoline(fields=%r, limit_level=%r, serial=%r); m.slice(fformat="return"); m.slice(fformat="return")' % (fields, limit, serial)
             if np_limit:
                 what = what.replace('limit_level=%r' % limit, 'limit_level=np.int64(%r)' % limit)
+            if positional:
+                what = "Mandoline('plt', %r, %r, serial=%r).slice(fformat=\"return\")" % (fields, limit, serial)
             with patch.Patched(mods, fs), common.quiet():
                 try:
-                    m = Mandoline('plt', fields=list(fields), limit_level=np.int64(limit) if np_limit else limit, serial=serial, verbose=0)
+                    if positional:
+                        # the first three parameters handed over by position, as the repository's own tests do (plotfile, fields, limit_level)
+                        m = Mandoline('plt', list(fields), limit, serial=serial, verbose=0)
+                    else:
+                        m = Mandoline('plt', fields=list(fields), limit_level=np.int64(limit) if np_limit else limit, serial=serial, verbose=0)
                     if again:
                         # one retained object flattens twice: the second result is judged
                         m.slice(fformat='return')
@@ -208,6 +214,14 @@ def run_case(case):
             res.add_obl(obl)
             if obl.failed and 'C08/numpy-limit' not in viol:
                 viol['C08/numpy-limit'] = {'signature': 'C08/numpy-limit', 'what': obl.failed[0][0], 'args': [fields, limit, serial], 'np_limit': True}
+    # the constructor's leading parameters by position
+    for fields, limit, serial in [(fl_[1 % len(fl_)], 0, False)] if (not case.get('wide') and ref.nlev > 1) else []:
+        results, exhaustive, stats = one(fields, limit, serial, positional=True)
+        res.add_explore(results, exhaustive, stats)
+        for ctx, obl in results:
+            res.add_obl(obl)
+            if obl.failed and 'C08/positional' not in viol:
+                viol['C08/positional'] = {'signature': 'C08/positional', 'what': obl.failed[0][0], 'args': [fields, limit, serial], 'positional': True}
     cres, _, _ = one([ref.fields[0]], None, True, canary=True)
     res['canaries'] += 1
     if cres and cres[0][1].failed:
@@ -249,7 +263,7 @@ def make_replay(ref, v):
         cov, lev = covering.covering(cref, lim, ref.fields.index(n))
         exp[n] = replay_lib._arr_hex(np.array(cov, dtype=float).T)
     _, lev = covering.covering(cref, lim, 0)
-    case = {'property': 'C08', 'handler': 'c08', 'signature': v['signature'], 'what': v['what'], 'args': v['args'], 'again': bool(v.get('again')), 'cli': v.get('cli'), 'np_limit': bool(v.get('np_limit')),
+    case = {'property': 'C08', 'handler': 'c08', 'signature': v['signature'], 'what': v['what'], 'args': v['args'], 'again': bool(v.get('again')), 'cli': v.get('cli'), 'np_limit': bool(v.get('np_limit')), 'positional': bool(v.get('positional')),
             'expected': exp, 'grid_level': lev.T.tolist() if (fields == ['all'] or 'grid_level' in fields) else None,
             'x': [float(x) for x in covering.centres(ref, lim, 0)], 'y': [float(x) for x in covering.centres(ref, lim, 1)],
             'coord_rtol': 1e-12 if not getattr(ref, 'header_digits', None) else 10.0 ** (2 - ref.header_digits)}
